@@ -321,7 +321,7 @@ Proof.
   apply (G l []). reflexivity.
 Qed.
 
-Lemma flatten_copy_ready h h' : wf_holder h -> data_len_ok h -> flatten h = (EOk, h') ->
+Lemma flatten_copy_ready h h' : wf_holder h -> data_len_ok h -> flatten_mid h = (EOk, h') ->
   Forall data_ok h' /\ disjoint_layout h'.
 Proof.
   intros Hwf Hdl E. destruct (flatten_flattened h h' Hwf E) as [_ _ Hwf' _ _ _ _ Hrel]. split.
@@ -340,7 +340,7 @@ Proof.
 Qed.
 
 (* a destination of code_size bytes (or more) is never refused *)
-Lemma copy_accepts_code_size h h' dst : wf_holder h -> flatten h = (EOk, h') -> code_size h' <= dst ->
+Lemma copy_accepts_code_size h h' dst : wf_holder h -> flatten_mid h = (EOk, h') -> code_size h' <= dst ->
   existsb (too_small dst) h' = false.
 Proof.
   intros Hwf E Hd. destruct (existsb (too_small dst) h') eqn:Ex; [|reflexivity].
@@ -351,7 +351,7 @@ Proof.
 Qed.
 
 Lemma flatten_copy_exact h h' mem dst ps pt mem' :
-  wf_holder h -> data_len_ok h -> flatten h = (EOk, h') -> 0 <= dst <= Z.of_nat (length mem) ->
+  wf_holder h -> data_len_ok h -> flatten_mid h = (EOk, h') -> 0 <= dst <= Z.of_nat (length mem) ->
   copy_flat h' mem dst ps pt = (EOk, mem') ->
   length mem' = length mem /\
   (forall c, dst <= c -> cell mem' c = cell mem c) /\
